@@ -341,3 +341,48 @@ reg("C14", "exploration",
                      "streamed_writes_decode_upstream": 2000, "streamed_reads_equal": 2000, "async_streams": 800, "compositions": 1000,
                      "unknown_refused": 8, "python_gzip_files": 3, "payload.empty": 5, "payload.large": 5}},
     phases=c14_phases)
+
+
+def c16_xproc_compare(cfg, tier, seed, work, agg):
+    """Cross-process clause: the same logical archives were serialised by separate OS processes."""
+    keys = sorted(k for k in agg["extra"] if k.startswith("xproc_"))
+    c = agg["counters"]
+    c["xproc_processes"] = len(keys)
+    if len(keys) < 2:
+        agg["inconclusive"].append("cross-process clause: fewer than 2 processes reported outputs")
+        return
+    ref = agg["extra"][keys[0]]["fps"]
+    pids = {agg["extra"][k]["pid"] for k in keys}
+    c["xproc_distinct_pids"] = len(pids)
+    for k in keys[1:]:
+        fps = agg["extra"][k]["fps"]
+        for i, (a, b) in enumerate(zip(ref, fps)):
+            c["xproc_comparisons"] = c.get("xproc_comparisons", 0) + 1
+            if a != b or a == "error":
+                sig = "C16|process|process-dependent|output bytes differ between OS processes"
+                v = agg["violations"].setdefault(sig, {"signature": sig, "what": f"archive #{i} serialised to {a} in one process and {b} in another", "count": 0,
+                                                     "replay": {"property": "C16", "tier": tier, "seed": seed, "case": i, "profile": "checked", "sub": "xproc",
+                                                                "api": "process", "class": "process-dependent", "what": "cross-process", "materialised": {"fps": [a, b]}}})
+                v["count"] += 1
+    for k in keys:
+        agg["extra"].pop(k, None)
+
+
+def c16_phases(tier):
+    return [{"name": "main", "profile": "checked", "mem_gib": 12, "timeout_s": 900 if tier == "quick" else 7200},
+            {"name": "xproc", "profile": "checked", "sub": "xproc", "nshards": 6, "mem_gib": 12, "timeout_s": 1800},
+            {"name": "xproc-compare", "kind": "python", "fn": c16_xproc_compare}]
+
+
+reg("C16", "exploration",
+    "cases = logical archives (C01 classes, 4 codecs) each built along 9 histories reaching the same logical state: insertion order "
+    "sorted / reversed / shuffled (+ metadata assembled in another key order), detours (junk replaced later, extra ids added then "
+    "removed, duplicate adds), save+reopen midway with a sync or async reopen (tiles partly reader-backed), by the sync and the async "
+    "writer; all outputs of one writer kind must be byte-identical (and sync == async where no codec is involved); the first three "
+    "outputs are reopened and re-written (rewrite idempotence, covers stored coordinates); plus a cross-process phase in which 6 "
+    "separate OS processes (different hash-map seeds) serialise the same archives and the driver compares fingerprints. Distinct by "
+    "fingerprint of the logical archive; non-trivial = >= 2 tiles. Oracle: pairwise byte comparison (no golden files).",
+    require={"any": {"logical_archives": 200, "history_pairs_byte_identical": 1500, "rewrites_identical": 600, "archives_with_leaves": 8,
+                     "xproc_processes": 6, "xproc_comparisons": 200, "codec.none": 30, "codec.gzip": 30, "codec.brotli": 30, "codec.zstd": 30}},
+    phases=c16_phases,
+    assumptions=["separate OS processes get different std HashMap seeds (RandomState); 6 processes are compared"])
